@@ -127,3 +127,36 @@ func vIteB(c bool, a, b bool) bool {
 	}
 	return b
 }
+
+// vIteStr: term-level conditional on strings.
+func vIteStr(c bool, a, b string) string {
+	if c {
+		return a
+	}
+	return b
+}
+
+// vSubstr: s[lo:hi] with both bounds clamped into range (never panics).
+func vSubstr(s string, lo, hi int) string {
+	if lo < 0 {
+		lo = 0
+	}
+	if lo > len(s) {
+		lo = len(s)
+	}
+	if hi < lo {
+		hi = lo
+	}
+	if hi > len(s) {
+		hi = len(s)
+	}
+	return s[lo:hi]
+}
+
+// verifCoverIf records a reachability witness when cond can hold here,
+// without splitting the path.
+func verifCoverIf(label string, cond bool) {
+	if cond {
+		verifCur.Covers = append(verifCur.Covers, label)
+	}
+}
